@@ -46,7 +46,7 @@ fn main() {
             let r = std::panic::catch_unwind(|| {
                 let (dbs, repl_rx, sup_rx) = node::make_dbs(&dir, nundb::bo::ClusterRole::Primary, false);
                 nundb::bo::Databases::load_all_dbs(&dbs);
-                let n = node::Node { name: "n1".to_string(), pid: 1, sup_fut: None, sup_in: None, links: vec![], repl_fut: None, repl_in: None, dbs, repl_rx, sup_rx, sessions: std::collections::BTreeMap::new(), dir: dir.clone(), notices: std::collections::HashMap::new(), last_dump: vec![] };
+                let n = node::Node { name: "n1".to_string(), pid: 1, co_mode: false, cos: std::collections::BTreeMap::new(), next_co: 0, sup_fut: None, sup_in: None, links: vec![], repl_fut: None, repl_in: None, dbs, repl_rx, sup_rx, sessions: std::collections::BTreeMap::new(), dir: dir.clone(), notices: std::collections::HashMap::new(), last_dump: vec![] };
                 n.dump()
             });
             match r {
